@@ -3257,7 +3257,7 @@ impl Server {
                 let timeout_str = String::from_utf8_lossy(bytes);
                 // Try parsing as float first to handle both integer and decimal values
                 match timeout_str.parse::<f64>() {
-                    Ok(t) if t < 0.0 => return Ok(RespFrame::error("ERR timeout is not a float or out of range")),
+                    Ok(t) if !t.is_finite() || t < 0.0 || t > 1.0e12 => return Ok(RespFrame::error("ERR timeout is not a float or out of range")),
                     Ok(0.0) => None, // 0 means block forever
                     Ok(t) => Some(std::time::Duration::from_secs_f64(t)),
                     Err(_) => return Ok(RespFrame::error("ERR timeout is not a float or out of range")),
@@ -3294,7 +3294,7 @@ impl Server {
         }
         
         // No data available, register as blocked
-        let deadline = timeout.map(|t| Instant::now() + t);
+        let deadline = timeout.map(crate::storage::value::instant_after);
         self.blocking_manager.register_blocked(db_index, conn_id, keys.clone(), BlockingOp::BLPop, deadline)?;
         
         // Move connection to blocked state
@@ -3322,7 +3322,7 @@ impl Server {
                 let timeout_str = String::from_utf8_lossy(bytes);
                 // Try parsing as float first to handle both integer and decimal values
                 match timeout_str.parse::<f64>() {
-                    Ok(t) if t < 0.0 => return Ok(RespFrame::error("ERR timeout is not a float or out of range")),
+                    Ok(t) if !t.is_finite() || t < 0.0 || t > 1.0e12 => return Ok(RespFrame::error("ERR timeout is not a float or out of range")),
                     Ok(0.0) => None, // 0 means block forever
                     Ok(t) => Some(std::time::Duration::from_secs_f64(t)),
                     Err(_) => return Ok(RespFrame::error("ERR timeout is not a float or out of range")),
@@ -3359,7 +3359,7 @@ impl Server {
         }
         
         // No data available, register as blocked
-        let deadline = timeout.map(|t| Instant::now() + t);
+        let deadline = timeout.map(crate::storage::value::instant_after);
         self.blocking_manager.register_blocked(db_index, conn_id, keys.clone(), BlockingOp::BRPop, deadline)?;
         
         // Move connection to blocked state
